@@ -294,6 +294,11 @@ func (e *Engine) verifyFunction(fn *ssa.Function, safety bool) (fr *Frame, err e
 	if c != nil {
 		env := f.requiresEnv(st)
 		for _, r := range c.Requires {
+			if !safety && hasTag(r.Tags, "safety") && strings.HasPrefix(r.Label, "c20") {
+				// preconditions written for the no-panic sweep only: not needed (and not assumed) elsewhere - keeps
+				// the other properties' queries free of the sweep's quantified registry / state facts
+				continue
+			}
 			t, err := env.formula(r.Expr)
 			if err != nil {
 				e.specError(f.name, r, err)
